@@ -143,6 +143,36 @@ def do_operation(c2mod, profmod, cfgobj, decoders, op, record=True):
             pass
         else:
             raise Violation("mutation:delete_accepted", f"deletion from {op[1]} succeeded")
+        # every other spelling of a mutation: rejected (the method does not exist or raises) - and, whatever it does,
+        # the mapping afterwards still holds what it held
+        before = norm(m)
+        size = len(m)
+
+        def ior():
+            mm = m
+            mm |= {key: 4444}
+            return mm
+
+        spellings = {
+            "update": lambda: m.update({key: 4444}),
+            "|=": ior,
+            "pop": lambda: m.pop(key),
+            "popitem": lambda: m.popitem(),
+            "clear": lambda: m.clear(),
+            "setdefault": lambda: m.setdefault("no-such-setting", 1),
+            "__init__": lambda: type(m).__init__(m, {key: 4444}) if isinstance(m, dict) else (_ for _ in ()).throw(TypeError("not a dict")),
+        }
+        for name, fn in spellings.items():
+            try:
+                fn()
+            except (TypeError, AttributeError):
+                pass
+            else:
+                # "|=" may legitimately fall back to "|" and rebind the local name; an explicit mutator must refuse
+                if name not in ("|=", "__init__"):
+                    raise Violation("mutation:spelling_accepted", f"{name} on {op[1]} did not raise")
+            if len(m) != size or norm(m) != before:
+                raise Violation("mutation:spelling_accepted", f"{name} on {op[1]} changed the mapping")
         return "TypeError"
     raise AssertionError(op)
 
